@@ -374,3 +374,43 @@ GPM = Unit(['C11', 'C16', 'C09'], SFM + 'generate_profiles', lambda c: dict(self
            gen=_gp_gen, cases=[{'condensates': False}, {'condensates': True}], bounds=[dict(n=2, A=1, I=1)], short='SimpleForwardModel.generate_profiles',
            inline=['generate_profile_dict'],
            doc='generate_profile_dict (its body executed in place) plus the mean molecular weight profile under mu_profile')
+
+
+# ------------------------------------------------------------------ ArrayPressureProfile: levels around the given layer pressures
+def _ap_post(c, v0, v1, r):
+    P = v0.self.pressure_profile
+    n = c.Len(P)
+    L = v1.self.pressure_profile_levels
+    lp = lambda i: c.log10(P[i])
+    d = {'one_more_level_than_layers': c.Len(L) == n + 1}
+    if c.mode == 'conc':
+        import numpy as np
+        lpa = np.log10(np.array(P, dtype=float))
+        g = np.gradient(lpa)
+        want = 10 ** np.append(lpa - g / 2, lpa[-1] + g[-1] / 2)
+        d['levels_half_a_step_around_the_layers'] = bool(np.allclose(np.array(L, dtype=float), want, rtol=1e-12))
+        return d
+    d['surface_level'] = c.Eq(L[0], c.pow10(lp(0) - (lp(1) - lp(0)) / 2))
+    d['top_level'] = c.Eq(L[n], c.pow10(lp(n - 1) + (lp(n - 1) - lp(n - 2)) / 2))
+    d['inner_levels'] = c.Forall(1, n - 1, lambda i: c.Eq(L[i], c.pow10(lp(i) - ((lp(i + 1) - lp(i - 1)) / 2) / 2)))
+    d['last_layer_lower_level'] = c.Eq(L[n - 1], c.pow10(lp(n - 1) - (lp(n - 1) - lp(n - 2)) / 2))
+    return d
+
+
+def _ap_native(c, p):
+    import numpy as np
+    from taurex.data.profiles.pressure.arraypressure import ArrayPressureProfile
+    o = ArrayPressureProfile(np.array(p['self']['pressure_profile'], dtype=float))
+    o.compute_pressure_profile()
+    return None, dict(p, self=dict(p['self'], pressure_profile_levels=np.asarray(o.pressure_profile_levels, dtype=float)))
+
+
+APP = Unit('C11', 'taurex.data.profiles.pressure.arraypressure:ArrayPressureProfile.compute_pressure_profile',
+           lambda c: dict(self=ObjSpec('ArrayPressureProfile', pressure_profile=c.array('P', (c.int('n'),)), pressure_profile_levels=None)),
+           pre=lambda c, v: {'two_layers': c.Len(v.self.pressure_profile) >= 2,
+                             'positive': c.Forall(0, c.Len(v.self.pressure_profile), lambda i: v.self.pressure_profile[i] > 0)},
+           post=_ap_post, native=_ap_native, frame_attrs=[('self', 'pressure_profile_levels')], safety=('index', 'div', 'domain'),
+           gen=lambda rng: (lambda n: dict(n=n, P=sorted((10 ** rng.uniform(-4, 6) for _ in range(n)), reverse=True)))(rng.randint(2, 8)),
+           bounds=[dict(n=2), dict(n=3)], short='ArrayPressureProfile.compute_pressure_profile',
+           doc='array pressure profile: one more level than layers, half a logarithmic step around every layer pressure (np.gradient, '
+               'np.append: assumed models; a single layer is outside np.gradient)')
